@@ -608,7 +608,8 @@ func (ex *Exec) doIf(st *State, th *Thread, f *Frame, x *ssa.If) []*State {
 	ncond := ex.ctx.Not(cond)
 	var rT, rF Res
 	var mT, mF Model
-	lazy := ex.cfg.LazyIf && ex.cfg.MergeIfs && len(st.threads) == 1 && (f.info.ipdom[f.block.Index] >= 0 || ex.depth > 0) && !(f.info.loopExit[f.block.Index] && f.loops[f.block.Index] >= 66) && !ex.isNoMerge(f.fn)
+	siteKey := [2]interface{}{f.fn, f.block.Index}
+	lazy := ex.cfg.LazyIf && ex.lazyFail[siteKey] < 3 && !ex.isEagerFn(f.fn) && ex.cfg.MergeIfs && len(st.threads) == 1 && (f.info.ipdom[f.block.Index] >= 0 || ex.depth > 0) && !(f.info.loopExit[f.block.Index] && f.loops[f.block.Index] >= 66) && !ex.isNoMerge(f.fn)
 	if lazy {
 		// both arms are explored and merged at the join; infeasible arms only
 		// contribute dead ite branches (assertions/panics re-check the pc)
@@ -694,6 +695,13 @@ func (ex *Exec) doIf(st *State, th *Thread, f *Frame, x *ssa.If) []*State {
 		if len(merged) == 0 {
 			st.ended = true
 			return nil
+		}
+		if lazy && len(merged) > 1 {
+			// the arms did not merge: decide this branch with the solver from now on
+			if ex.lazyFail == nil {
+				ex.lazyFail = map[[2]interface{}]int{}
+			}
+			ex.lazyFail[siteKey]++
 		}
 		*st = *merged[0]
 		return merged[1:]
